@@ -6,7 +6,7 @@
    Definitions only. *)
 From Coq Require Import List ZArith Bool.
 Import ListNotations.
-From V Require Import Base.Bytes Base.Iface Gen.HtmlTemplates.
+From V Require Import Base.Bytes Base.Iface Gen.HtmlTemplates Gen.StateSites.
 From V Require C14.Model.   (* the form handler, for pages served after a saved form *)
 Local Open Scope Z_scope.
 
@@ -200,18 +200,48 @@ Definition set_state (old msg : list Z) : list Z :=
   let m := cstr msg in
   cstr (take (STATE_MAX - 1) (m ++ (if 0 <? len old then [44] else []) ++ old)).
 
+(* ---------- the last-state text as the firmware produces it ---------- *)
+(* supla_esp_wifi_check_status: the message of a station status, from the generated call sites
+   (row = status, kind 0 literal / 1 format with one text field of the configuration, buffer size, field offset, text index) *)
+Definition wifi_site (n : Z) : option (list Z) := find (fun r => nthz r 0 =? n) WIFI_SITES.
+Definition wifi_text (idx : Z) : list Z :=
+  if idx =? 0 then WIFI_MSG0 else if idx =? 1 then WIFI_MSG1 else if idx =? 2 then WIFI_MSG2 else WIFI_MSG3.
+Definition wifi_msg (c : list Z) (r : list Z) : list Z :=
+  let t := wifi_text (nthz r 4) in
+  if nthz r 1 =? 0 then t else snprintf_str (nthz r 2) (render (parse t) [field_str c (nthz r 3)]).
+(* (last-state text, supla_esp_wifi_vars.last_status) *)
+Definition wifi_status (c : list Z) (tl : list Z * Z) (n : Z) : list Z * Z :=
+  let '(text, last) := tl in
+  if last =? n then tl
+  else (match (if n =? ST_GOT_IP then None else wifi_site n) with
+        | Some r => set_state text (wifi_msg c r)
+        | None => text
+        end, n).
+(* a log entry: (0, _, message) supla_esp_set_state(message) with a text chosen by the case;
+   (1, n, _) supla_esp_wifi_station_connect while the SDK reports status n; (2, n, _) the status poll sees n *)
+Definition log_step (c : list Z) (tl : list Z * Z) (e : Z * Z * list Z) : list Z * Z :=
+  let '(k, n, b) := e in
+  if k =? 0 then (set_state (fst tl) b, snd tl)
+  else if k =? 1 then
+    let tl1 := (set_state (fst tl) WIFI_CONNECTING_MSG, snd tl) in
+    if snd tl =? ST_GOT_IP + 1 then wifi_status c tl1 n else tl1
+  else wifi_status c tl n.
+Definition state_of (c : list Z) (log : list (Z * Z * list Z)) : list Z :=
+  fst (fold_left (log_step c) log ([], ST_GOT_IP + 1)).
+
 (* ---------- wire ---------- *)
 Definition HOST_CHAR_SIGNED : bool := negb (CHAR_IS_SIGNED =? 0).
 
-Record st := { cfgA : list Z; cfgB : list Z; s_name : list Z; s_mac : list Z; s_add : list Z; s_state : list Z; s_reqb : list Z }.
+Record st := { cfgA : list Z; cfgB : list Z; s_name : list Z; s_mac : list Z; s_add : list Z;
+               s_log : list (Z * Z * list Z); s_reqb : list Z }.
 Definition init : st :=
-  {| cfgA := zeros CFG_SIZE; cfgB := zeros CFG_SIZE; s_name := []; s_mac := zeros 6; s_add := []; s_state := []; s_reqb := [] |}.
+  {| cfgA := zeros CFG_SIZE; cfgB := zeros CFG_SIZE; s_name := []; s_mac := zeros 6; s_add := []; s_log := []; s_reqb := [] |}.
 Definition fit (n : Z) (l : list Z) : list Z := take n (l ++ zeros n).
-Definition upd_st (s : st) (a b nm mc ad stt rq : list Z) : st :=
-  {| cfgA := a; cfgB := b; s_name := nm; s_mac := mc; s_add := ad; s_state := stt; s_reqb := rq |}.
+Definition upd_st (s : st) (a b nm mc ad : list Z) (lg : list (Z * Z * list Z)) (rq : list Z) : st :=
+  {| cfgA := a; cfgB := b; s_name := nm; s_mac := mc; s_add := ad; s_log := lg; s_reqb := rq |}.
 
 Definition out_page (k : Z) (s : st) (c : list Z) (v d : Z) : wire :=
-  let e := {| cfg := c; name := cstr (s_name s); mac := s_mac s; state := s_state s; ds := d |} in
+  let e := {| cfg := c; name := cstr (s_name s); mac := s_mac s; state := state_of c (s_log s); ds := d |} in
   let '(n, tr, html) := page HOST_CHAR_SIGNED v e (cstr (s_add s)) in
   mk k [v; d; n; tr] (http_ok HOST_CHAR_SIGNED e html).
 
@@ -221,10 +251,11 @@ Definition post_form (c req : list Z) : list Z * bool :=
   let '(d, r) := C14.Model.recv C14.Model.FIXED HOST_CHAR_SIGNED
                    {| C14.Model.dcfg := c; C14.Model.dcmd := None; C14.Model.dpv := C14.Model.pv0 |} req in
   (C14.Model.dcfg d, C14.Model.saved r).
-(* the response to the POST: the natively linked (MQTT) page with "Data saved" on the stored configuration, or nothing *)
-Definition out_form (k : Z) (s : st) (c : list Z) (sv : bool) : wire :=
+(* the response to the POST: the natively linked (MQTT) page with "Data saved" on the stored configuration, or nothing;
+   the last-state text is the one produced before the form (configuration c0) *)
+Definition out_form (k : Z) (s : st) (c0 c : list Z) (sv : bool) : wire :=
   if sv then
-    let e := {| cfg := c; name := cstr (s_name s); mac := s_mac s; state := s_state s; ds := 1 |} in
+    let e := {| cfg := c; name := cstr (s_name s); mac := s_mac s; state := state_of c0 (s_log s); ds := 1 |} in
     let '(n, tr, html) := page HOST_CHAR_SIGNED 6 e (cstr (s_add s)) in
     mk k [1; n; tr] (http_ok HOST_CHAR_SIGNED e html)
   else mk k [0; -1; 0] [].
@@ -232,24 +263,26 @@ Definition out_form (k : Z) (s : st) (c : list Z) (sv : bool) : wire :=
 Definition step (s : st) (w : wire) : st * list wire :=
   let '(k, a, b) := w in
   let A := cfgA s in let B := cfgB s in let nm := s_name s in let mc := s_mac s in
-  let ad := s_add s in let stt := s_state s in let rq := s_reqb s in
-  if k =? 0 then (upd_st s (fit CFG_SIZE b) B nm mc ad stt rq, [])
-  else if k =? 1 then (upd_st s A (fit CFG_SIZE b) nm mc ad stt rq, [])
-  else if k =? 2 then (upd_st s A B (take 24 b) mc ad stt rq, [])
-  else if k =? 3 then (upd_st s A B nm (fit 6 b) ad stt rq, [])
-  else if k =? 4 then (upd_st s A B nm mc b stt rq, [])
-  else if k =? 5 then (upd_st s A B nm mc ad (set_state stt b) rq, [])
+  let ad := s_add s in let lg := s_log s in let rq := s_reqb s in
+  if k =? 0 then (upd_st s (fit CFG_SIZE b) B nm mc ad lg rq, [])
+  else if k =? 1 then (upd_st s A (fit CFG_SIZE b) nm mc ad lg rq, [])
+  else if k =? 2 then (upd_st s A B (take 24 b) mc ad lg rq, [])
+  else if k =? 3 then (upd_st s A B nm (fit 6 b) ad lg rq, [])
+  else if k =? 4 then (upd_st s A B nm mc b lg rq, [])
+  else if k =? 5 then (upd_st s A B nm mc ad (lg ++ [(0, 0, b)]) rq, [])
   else if k =? 6 then
     let v := nth 0 a 0 in let d := nth 1 a 0 in
     (s, [out_page 0 s A v d; out_page 1 s B v d])
   else if k =? 7 then
     (* GET through supla_esp_recv_callback: natively linked page (MQTT), data_saved = 0 *)
     (s, [out_page 2 s A 6 0])
-  else if k =? 8 then (upd_st s A B nm mc ad stt b, [])
+  else if k =? 8 then (upd_st s A B nm mc ad lg b, [])
   else if k =? 9 then
     let '(A', svA) := post_form A b in
     let '(B', svB) := post_form B rq in
-    (upd_st s A' B' nm mc ad stt rq, [out_form 3 s A' svA; mk 5 [] A'; out_form 4 s B' svB; mk 6 [] B'])
+    (upd_st s A' B' nm mc ad lg rq, [out_form 3 s A A' svA; mk 5 [] A'; out_form 4 s B B' svB; mk 6 [] B'])
+  else if k =? 10 then (upd_st s A B nm mc ad (lg ++ [(1, nth 0 a 0, [])]) rq, [])
+  else if k =? 11 then (upd_st s A B nm mc ad (lg ++ [(2, nth 0 a 0, [])]) rq, [])
   else (s, []).
 
 Fixpoint run (s : st) (ws : list wire) : list wire :=
